@@ -459,6 +459,7 @@ impl GameEnv {
 
     /// honest PayProof of the library's own prover on a copy of the Ready customer (template layout,
     /// and the object of the transcript observation)
+    pub fn honest_pay_proof_pub(&mut self, info: &ReadyInfo, amount: i64) -> (Vec<u8>, Tree, Vec<u8>) { self.honest_pay_proof(info, amount) }
     fn honest_pay_proof(&mut self, info: &ReadyInfo, amount: i64) -> (Vec<u8>, Tree, Vec<u8>) {
         let mut rng = self.rng(3);
         let c = &self.world.chans[&info.ch];
